@@ -20,9 +20,9 @@ func init() {
 		Level: "exploration",
 		Cases: func(t string) int {
 			if t == "thorough" {
-				return 8000
+				return 16000
 			}
-			return 630
+			return 2100
 		},
 		Batch:  func(t string) int { return 35 },
 		Floors: []string{"path_GenericWriter", "path_WriterWriteAny", "path_GenericWriterAny", "path_GenericBuffer", "path_Buffer", "path_RowBuffer", "path_WriteRowsDeconstruct", "path_ColumnWriters", "reconstruct_checks", "bitmap_runs_over_64"},
